@@ -352,7 +352,7 @@ def check_C05(ctx):
     ctx.rng.shuffle(encs)
     encs = encs[: (700 if ctx.quick else 12000)]
     items, lib = [], []
-    rkinds = ['buf', 'ped', 'stream', 'fstream', 'fd', 'mfd', 'bbuf', 'bped', 'bstream', 'bfstream', 'bfd', 'pbuf', 'ubuf', 'uped']
+    rkinds = ['buf', 'ped', 'stream', 'nsstream', 'fstream', 'fd', 'mfd', 'bbuf', 'bped', 'bstream', 'bfstream', 'bfd', 'pbuf', 'ubuf', 'uped']
     for tid, hx in encs:
         n = hexlen(hx)
         cuts = range(n) if n <= 40 else sorted(set(list(range(10)) + [ctx.rng.randrange(n) for _ in range(20)] + [n - 1, n - 2]))
